@@ -1,4 +1,5 @@
 #!/bin/bash
+export VERIF_EVIDENCE_DIR=/var/tmp/evidence-experiments
 # usage: tools/recheck_seeds.sh <suffix e.g. agent5> [ids...]: apply each confirmed seed to /repo, run the owning property's quick check, revert
 suffix=$1; shift
 ids=${@:-$(seq -w 1 20 | sed 's/^/C/')}
